@@ -4,6 +4,7 @@ Require Extraction.
 Require Import ExtrOcamlBasic.
 From Coq Require Import List NArith Strings.String.
 From V Require Import Base.Bytes Base.Res Gen.Tables Model.Escape Spec.EscapeSpec.
+From V Require Import Model.FrontMatter Spec.FrontMatterSpec.
 Extraction Language OCaml.
 Set Extraction KeepSingleton.
 
@@ -23,4 +24,11 @@ Extraction "model.ml"
   EscapeSpec.no_pct_hex
   EscapeSpec.lex_start_tag
   EscapeSpec.utf8_valid
+  FrontMatter.split_off_front_matter
+  FrontMatter.count_lf
+  FrontMatterSpec.spec_split
+  FrontMatterSpec.spec_split_doc
+  FrontMatterSpec.fm_class
+  FrontMatterSpec.delim_ok
+  FrontMatterSpec.lf_count
 .
